@@ -43,7 +43,14 @@ RULE = (
     "forms on a real record holding canaries in string / wstring / uri / varint / filesize / unix_file_mode / dynamic / "
     "stringlist slots and in nested record / record[] fields: no named canary method may be invoked, whatever is returned.  "
     "Family 'call-verdict-cache': a legitimate call spelling evaluated first (same expression, or an earlier record matched by "
-    "the SAME Selector object) followed by the shadowing generator-variable shape."
+    "the SAME Selector object) followed by the shadowing generator-variable shape.  Family 'entry-point': every hostile shape "
+    "(x 4 contexts x 2 canary records) through every public evaluation entry point of the interpreted engine besides "
+    "Selector.match: `rec in Selector`, explain_selector at each verbosity and after a match(), make_selector(text), "
+    "make_selector(Selector), RecordContextMatcher.matches and .eval directly - same oracle; and over files holding the plain "
+    "record through RecordStreamReader, RecordReader(path | fileobj | jsonfile | csvfile, selector=text | Selector), "
+    "record_stream and `rdump -n -s` (refusal = raises, or for the two that swallow errors by design: no record comes out).  "
+    "Inside a field-type constructor or the regex engine a named method of a value is accepted only if the value's builtin "
+    "base type has it (a str treated as a str); foreign names (decode, isoformat, read ...) are violations."
 )
 ASSUMPTIONS = [
     "a canary method called from the code of a documented helper function (lower/upper/field_*) or from a whitelisted "
@@ -54,6 +61,8 @@ ASSUMPTIONS = [
     "'evaluated position' = the policy model's conservative judgement, or an embedding context whose hole Python "
     "certainly evaluates given the context's own constants (e.g. `True and H`, `any(H for q in [1, 2])`)",
     "which exception class refuses an expression is left open (SyntaxError at construction counts as refusal)",
+    "the compiled engine (CompiledSelector, make_selector(force_compiled=True), rdump without -n, rdump --exec-expression) is documented "
+    "as unsafe for untrusted input and is not part of the sandbox property: hostile expressions are never run through it",
     "CPython 3.12 reports no CALL event for a Python-level function or bound method invoked through f(*args, **kwargs); the "
     "sys.monitoring watcher therefore covers C-level callables (builtins, builtin methods of plain field values) and callable "
     "objects, the canaries' own log covers Python-level methods",
@@ -235,7 +244,8 @@ ARG_RECORDS = ("real-canary", "standin")
 # No forbidden shape is spelled: the calls are allowed.  What is monitored is what the *callee* does with the value: a
 # named method of a value may be invoked only where the helper documents it (DOCUMENTED_HELPER_METHODS) or inside a
 # field-type constructor / the regex engine; `fields(r.c)` calling r.c.gettypename() is an ordinary method call on a value.
-CANARY_ARGS = ["r.s", "r.n", "r.l", "r.k", "r.o", "r.o.fn", "[r.s, r.t]", "r.missing"]
+CANARY_ARGS = ["r.s", "r.n", "r.l", "r.k", "r.o", "r.o.fn", "[r.s, r.t]", "r.missing", "r.p", "r.q", "r.u", "r.sl"]
+HELPER_ARG_RECORDS = ("real-canary", "standin", "real-typed")
 HELPER_CALLS = [
     "lower({C})", "upper({C})", "name({C})", "names({C})", "get_type({C})", "has_field(r, {C})", 'has_field({C}, "s")', "fields({C})",
     'field_regex(r, {C}, "A")', 'field_regex(r, ["s"], {C})', 'field_regex({C}, ["s"], "A")',
@@ -247,10 +257,12 @@ HELPER_CALLS = [
     "net.ipaddress({C})", "net.ipnetwork({C})", "net.IPAddress({C})", "net.IPNetwork({C})", "net.ipv4.Address({C})", "net.ipv4.Subnet({C})",
     "net.tcp.Port({C})", "net.udp.Port({C})", "string({C})", "wstring({C})", "varint({C})", "uri({C})", "bytes({C})", "boolean({C})", "float({C})",
     "datetime({C})", "digest({C})", "command({C})", "stringlist({C})", "dictlist({C})", "dynamic({C})", "filesize({C})", "uint16({C})", "uint32({C})",
-    "unix_file_mode({C})", "record({C})",
+    "unix_file_mode({C})", "record({C})", "path({C})", "net.tcp.Port({C}) == 1", "string({C}) == wstring({C})", "str(string({C}))", "lower(string({C}))",
+    "uri(str({C}))", "varint({C}) + 1", "float({C}) > 1", "bytes({C}) == b\"x\"", "datetime({C}) == datetime({C})",
 ]
 HELPER_ARG_CONTEXTS = ["{H}", "({H}) == 1", "any(({H}) for q in [1])"]
 DOCUMENTED_HELPER_METHODS = {("lower", "lower"), ("upper", "upper")}
+URI_DECODE_KEY = "uri-constructor-decodes-non-text-value"
 
 # ---- typed matcher: Type.<type>.<attr> reads attributes of field values, it must never call them -----------------
 # No Call node is spelled.  The record holds canaries (every public attribute name is a logged callable) in string / wstring /
@@ -274,6 +286,17 @@ VERDICT_CACHE_PRIMED = [  # real-plain is matched first with the same Selector o
     'str(r.o) == "plain" or any(str(r.o) for str in [r.o.fn])', 'uri("plain") == r.o or any(uri("plain") for uri in [r.s.poke])',
     'net.ipaddress("1.1.1.1") == 1 or r.o == "plain" or any(net.ipaddress("1.1.1.1") for net in [r.o])',
 ]
+
+# ---- every public evaluation entry point of the interpreted engine ------------------------------------------------
+# (the compiled engine is documented as unsafe for untrusted queries and is deliberately NOT driven with hostile input)
+ENTRY_MEMORY = ["contains", "explain:all", "explain:branches", "explain:none", "explain-after-match", "make_selector:text", "make_selector:object",
+                "matcher.matches", "matcher.eval"]
+ENTRY_FILE = ["RecordStreamReader", "RecordReader:path:text", "RecordReader:path:Selector", "RecordReader:fileobj", "RecordReader:jsonfile",
+              "RecordReader:csvfile", "record_stream", "rdump -n -s"]
+SWALLOWING = ("record_stream", "rdump -n -s")  # catch the refusal by design: the observable refusal is "no record comes out"
+ENTRY_CONTEXTS = ["{H}", "({H}) == 1", "True and ({H})", "any(({H}) for q in [1, 2])"]
+ENTRY_EXTRA_SHAPES = ['Type.uri.filename.__class__ == "x"', "r._desc.__init__ == 1", 'r.s == "nope" or r.o.__reduce_ex__ == 1',
+                      "lower(r.s.__doc__) == 1", 'field_contains(r, ["s"], ["x"], nocase=r.o.__class__)', "r.s.__class__.__mro__", "r.o.__trip__ == 1"]
 
 # ---- allowed shapes (negative controls) ---------------------------------------------------------------
 CONTROLS = [
@@ -319,7 +342,7 @@ def get_record(ctx, kind):
     if kind not in recs:
         rec = {"real-canary": cn.real_canary_record, "standin": cn.standin_record, "real-plain": cn.real_plain_record,
                "real-typed": cn.real_typed_record}[kind]()
-        if kind != "standin":
+        if kind not in ("standin", "real-typed"):  # real-typed keeps plain objects in `record` typed fields on purpose
             observe.assert_typed(rec, "constructed")
         recs[kind] = rec
     return recs[kind]
@@ -355,13 +378,38 @@ def setup(ctx):
     ctx.state["reach"] = probes.Reach(ANCHORS)
     ctx.state["cw"] = CallWatch(selector)
     ctx.state["distinct"] = {}
+    from ..core import load_known_findings
+
+    ctx.state["known_keys"] = set(load_known_findings(ID))
     ctx.state["seen_expr"] = set()
     # what survives Record.__setattr__ (a subclass of the field type class passes through unconverted)
     ctx.note("canary_slots_in_real_record", cn.count_canaries(get_record(ctx, "real-canary")) if ctx.shard == 0 else 0)
     ctx.state["selftest"] = selftest(ctx)
+    ctx.state["has_explain"] = hasattr(selector.Selector, "explain_selector")
+    import logging
+    import os
+    import tempfile
+
+    logging.getLogger("flow.record").setLevel(logging.CRITICAL)
+    tmp = ctx.state["tmp"] = tempfile.mkdtemp(prefix="frv-c09-", dir=os.environ.get("VERIF_TMP", "/var/tmp"))
+    from flow.record import RecordWriter
+
+    files = ctx.state["files"] = {}
+    for kind, name in (("stream", "plain.records"), ("jsonfile", "plain.json"), ("csvfile", "plain.csv")):
+        path = os.path.join(tmp, name)
+        w = RecordWriter(path)
+        for _ in range(2):
+            w.write(cn.real_plain_record())
+        w.flush()
+        w.close()
+        files[kind] = path
 
 
 def teardown(ctx):
+    import shutil
+
+    if ctx.state.get("tmp"):
+        shutil.rmtree(ctx.state["tmp"], ignore_errors=True)
     ctx.state["cw"].stop()
     ctx.state["reach"].stop()
     cn.disarm()
@@ -436,6 +484,19 @@ def generate(ctx):
             if ctx.mine(idx):
                 yield {"k": "direct", "expr": a, "rec": rk, "shape": a, "scat": "control-direct", "ctx": "bare#0", "ccat": "bare"}
             idx += 1
+    entry_shapes = [(sh["name"], sh["cat"], sh["expr"], sh["ev"]) for sh in SHAPES] + [("entry-extra#%d" % i, "dunder-attr", e, True)
+                                                                                  for i, e in enumerate(ENTRY_EXTRA_SHAPES)]
+    for si, (name, cat, e, ev) in enumerate(entry_shapes):
+        for entry in ENTRY_MEMORY:
+            for ci, c in enumerate(ENTRY_CONTEXTS):
+                for rk in ARG_RECORDS:
+                    if ctx.mine(idx):
+                        yield {"k": "hostile", "expr": c.replace("{H}", e), "ev": bool(ev), "rec": rk, "shape": name, "scat": cat, "ctx": "entryctx#%d" % ci,
+                               "ccat": "entry-point", "entry": entry}
+                    idx += 1
+        for j, entry in enumerate(ENTRY_FILE):
+            if ctx.mine(si * (len(ENTRY_FILE) + 1) + j):  # rotate, so that every shard drives every entry point
+                yield {"k": "entryfile", "expr": e, "ev": bool(ev), "shape": name, "scat": cat, "entry": entry}
     for t in TYPED_TYPES:
         for a in TYPED_ATTRS:
             for fi, f in enumerate(TYPED_FORMS):
@@ -454,7 +515,7 @@ def generate(ctx):
     for h in HELPER_CALLS:
         for c in CANARY_ARGS:
             for ci, hc in enumerate(HELPER_ARG_CONTEXTS):
-                for rk in ARG_RECORDS:
+                for rk in HELPER_ARG_RECORDS:
                     if ctx.mine(idx):
                         yield {"k": "helperarg", "expr": hc.replace("{H}", h.replace("{C}", c)), "rec": rk, "shape": h, "scat": "helper-with-canary-argument",
                                "ctx": "helperctx#%d" % ci, "ccat": "helper-arguments", "callee": h.split("(")[0], "arg": c}
@@ -631,7 +692,126 @@ def execute(ctx, case):
     if case["k"] == "rand":
         case = build_random(case["s"])
         ctx.current_case = case
-    run_case(ctx, case)
+    if case["k"] == "entryfile":
+        run_entry_file(ctx, case)
+    else:
+        run_case(ctx, case)
+
+
+def build_invocation(ctx, entry, expr, rec):
+    """-> (callable evaluating `expr` on `rec` through the given public entry point, or None when the entry point does not
+    exist on this tree).  Raises what constructing the selector raises."""
+    S = ctx.state["selector"]
+    if entry == "match":
+        sel = S.Selector(expr)
+        return sel, lambda: sel.match(rec)
+    if entry == "contains":
+        sel = S.Selector(expr)
+        return sel, lambda: rec in sel
+    if entry.startswith("explain"):
+        if not ctx.state["has_explain"]:
+            return None, None
+        sel = S.Selector(expr)
+        if entry == "explain-after-match":
+            try:
+                sel.match(get_record(ctx, "real-plain"))  # the selector object was used with match() before
+            except Exception:  # noqa: BLE001
+                pass
+            return sel, lambda: sel.explain_selector(rec).result
+        v = {"all": S.Selector.VERBOSITY_ALL, "branches": S.Selector.VERBOSITY_BRANCHES, "none": S.Selector.VERBOSITY_NONE}[entry.split(":")[1]]
+        return sel, lambda: sel.explain_selector(rec, verbosity=v).result
+    if entry == "make_selector:text":
+        sel = S.make_selector(expr)
+        return sel, lambda: sel.match(rec)
+    if entry == "make_selector:object":
+        sel = S.make_selector(S.Selector(expr), force_compiled=False)
+        return sel, lambda: sel.match(rec)
+    if entry == "matcher.matches":
+        parsed = S.Selector(expr)
+        m = S.RecordContextMatcher(parsed.expression, parsed.expression_str)
+        return m, lambda: m.matches(rec)
+    if entry == "matcher.eval":
+        parsed = S.Selector(expr)
+        true = S.Selector("True")
+        m = S.RecordContextMatcher(true.expression, true.expression_str)
+        m.matches(rec)
+        return m, lambda: m.eval(parsed.expression.body)
+    raise ValueError(entry)
+
+
+def run_entry_file(ctx, case):
+    """Hostile expression through the readers / stream helpers / rdump over files holding the plain record (no canaries can
+    live in a file): the refusal itself, the tripwires and the CALL watcher are what can be observed."""
+    import contextlib
+    import io
+
+    from flow.record import RecordReader
+    from flow.record.stream import RecordStreamReader, record_stream
+
+    S = ctx.state["selector"]
+    files = ctx.state["files"]
+    entry, expr = case["entry"], case["expr"]
+    try:
+        forb = refselector.sandbox_forbidden(expr)
+    except SyntaxError:
+        return
+    must_raise = bool(case["ev"]) and bool(forb)
+    ctx.ev()
+    cw = ctx.state["cw"]
+    raised, count = None, 0
+    cw.drain()
+    with probes.AuditLog({"open", "exec", "import", "os.system", "subprocess.Popen"}, filter=tripfilter) as trip:
+        try:
+            if entry == "RecordStreamReader":
+                with open(files["stream"], "rb") as fp:
+                    count = len(list(RecordStreamReader(fp, selector=expr)))
+            elif entry == "RecordReader:fileobj":
+                with open(files["stream"], "rb") as fp:
+                    count = len(list(RecordReader(fileobj=fp, selector=expr)))
+            elif entry.startswith("RecordReader:"):
+                kind = entry.split(":")[1]
+                sel = S.Selector(expr) if entry.endswith(":Selector") else expr
+                rd = RecordReader(files["stream" if kind == "path" else kind], selector=sel)
+                try:
+                    count = len(list(rd))
+                finally:
+                    rd.close()
+            elif entry == "record_stream":
+                count = len(list(record_stream([files["stream"], files["jsonfile"]], expr)))
+            elif entry == "rdump -n -s":
+                from flow.record.tools import rdump
+
+                out = io.StringIO()
+                with contextlib.redirect_stdout(out), contextlib.redirect_stderr(io.StringIO()):
+                    try:
+                        rc = rdump.main(["-n", "-s", expr, files["stream"]])
+                    except SystemExit as e:
+                        rc = e.code
+                count = sum(1 for line in out.getvalue().splitlines() if line.startswith("<"))
+                if rc not in (0, None) and count == 0:
+                    raised = SystemExit(rc)
+        except Exception as e:  # noqa: BLE001 - any exception class is a refusal
+            raised = e
+    calls = cw.drain()
+    detail = {"expression": expr, "entry_point": entry, "policy_model": [list(x) for x in forb][:4],
+              "outcome": ("raised " + type(raised).__name__) if raised is not None else "%d records came out" % count}
+    _, callnames = spelled(ast.parse(expr, mode="eval").body)
+    bad = [callable_name(c) for code, c in calls if cn.caller_class_of_code(code) == "interpreter" and category(ctx, c) == "builtin"
+           and callable_name(c) in HOSTILE_BUILTINS and callable_name(c) in callnames
+           and callable_name(c) != "compile"]  # the selector is constructed (compiled to an AST) inside these entry points
+    if bad:
+        ctx.violation(None, "sys.monitoring shows interpreter code calling a hostile builtin (entry point %s)" % entry, detail=dict(detail, called=bad[:4]))
+    if trip.log:
+        ctx.violation(None, "an audit tripwire fired during evaluation (entry point %s)" % entry, detail=dict(detail, audit=trip.log[:4]))
+    ctx.event("entry:" + entry)
+    if must_raise:
+        accepted = (count > 0) if entry in SWALLOWING else (raised is None)
+        if accepted:
+            ctx.violation(CLASSIFY.get(case["scat"]), "entry point %s accepted an expression with a forbidden shape (%s)" % (entry, case["scat"]), detail=detail)
+        else:
+            ctx.event("entry_refused:" + entry)
+    ctx.cell("entry-point", entry, case["scat"])
+    ctx.nontrivial(entry, expr)
 
 
 def run_case(ctx, case):
@@ -661,8 +841,13 @@ def run_case(ctx, case):
     raised = None
     result = None
     log, calls = [], []
+    entry = case.get("entry", "match")
+    invoke = None
     try:
-        sel = selector.Selector(expr)
+        sel, invoke = build_invocation(ctx, entry, expr, rec)
+        if sel is None and invoke is None:
+            ctx.event("entry_point_absent:" + entry)
+            return
     except Exception as e:  # noqa: BLE001 - refusing at construction is a refusal
         sel, raised, refused_at = None, e, "construction"
     # tripwires are armed after construction (which legitimately compiles the expression text to an AST)
@@ -678,7 +863,7 @@ def run_case(ctx, case):
             cw.drain()
             cn.arm()
             try:
-                result = sel.match(rec)
+                result = invoke()
             except Exception as e:  # noqa: BLE001 - any exception class is a refusal
                 raised, refused_at = e, "match"
             finally:
@@ -686,7 +871,8 @@ def run_case(ctx, case):
             calls = cw.drain()
     after = observation(rec)
 
-    detail = {"expression": expr, "record": case["rec"], "policy_model": [list(x) for x in forb][:6], "evaluated_position": must_raise,
+    ctx.event("entry:" + entry)
+    detail = {"expression": expr, "record": case["rec"], "entry_point": entry, "policy_model": [list(x) for x in forb][:6], "evaluated_position": must_raise,
               "outcome": ("raised %s at %s" % (type(raised).__name__, refused_at)) if raised is not None else "returned " + repr(result)[:80]}
     key = classify(case, tree) if hostile else None
 
@@ -704,7 +890,20 @@ def run_case(ctx, case):
         if rcls == "none" or "canary-internal" in via:
             continue
         if "fieldtype-constructor" in via or "regex-engine" in via:
-            ctx.event("canary_named_call_inside:" + ("fieldtype-constructor" if "fieldtype-constructor" in via else "regex-engine"))
+            where = "fieldtype-constructor" if "fieldtype-constructor" in via else "regex-engine"
+            if len(e) > 6 and e[6]:
+                # a str treated as a str, an int as an int: the method exists on the value's builtin base type
+                ctx.event("canary_named_call_inside:%s:native" % where)
+                continue
+            if e[2] == "decode" and via and via[0] == "stdlib:parse.py" and "fieldtype-constructor" in via:
+                # genuine defect of the unchanged tree: uri(<non-text value>) -> urllib.parse coerces its argument by calling
+                # value.decode('ascii', 'strict').  Raised as a violation once known_findings.json lists the mechanism.
+                ctx.event("candidate_finding:" + URI_DECODE_KEY)
+                if URI_DECODE_KEY in ctx.state["known_keys"]:
+                    ctx.violation(URI_DECODE_KEY, "uri(<value>) invokes value.decode() through urllib.parse", detail=dict(detail, method=e[2], of=e[1]))
+                continue
+            undocumented.append({"method": e[2], "of": e[1], "on_behalf_of": "%s %s inside a %s" % (rcls, rfn, where), "through": list(via),
+                                 "caller": e[4], "foreign_to_the_value_type": True})
             continue
         if rcls == "helper" and (rfn, e[2]) in DOCUMENTED_HELPER_METHODS and not via:
             ctx.event("canary_named_call_documented:%s->%s" % (rfn, e[2]))
@@ -810,7 +1009,7 @@ def run_case(ctx, case):
     if case.get("strict"):
         ctx.cell("args", case["acat"], case["pos"])
     ctx.cell(case["scat"], case["ccat"], case["rec"])
-    ctx.nontrivial(expr, case["rec"])
+    ctx.nontrivial(expr, case["rec"], case.get("entry", "match"))
     ctx.sample({"expression": expr, "record": case["rec"], "outcome": detail["outcome"], "evaluated_position": must_raise},
                kind=case["scat"] + ("/random" if case.get("random") else ""))
 
@@ -826,6 +1025,10 @@ def finish(ctx):
     ctx.require(ev["forbidden_in_evaluated_position"] > 0, "no forbidden shape in evaluated position was run")
     ctx.require(ev["strict_cases"] > 0 and ev["canary:special:interpreter"] > 0,
                 "the refused-call-arguments family did not run, or no special method of a canary was ever observed")
+    for entry in ["match"] + ENTRY_MEMORY + ENTRY_FILE:
+        if entry.startswith("explain") and not ctx.state["has_explain"]:
+            continue
+        ctx.require(ev["entry:" + entry] > 0, "entry point %s was never driven" % entry)
     ctx.require(ev["typed_matcher_cases"] > 0 and ev["callwatch:interpreter:interpreter-internal"] > 0, "the typed-matcher family did not run")
     ctx.require(ev["helper_argument_cases"] > 0 and ev["canary_named_call_documented:lower->lower"] > 0,
                 "the helper-with-canary-argument family did not run, or the documented lower()->.lower call was never observed")
